@@ -22,7 +22,7 @@ from concurrent.futures import ThreadPoolExecutor
 
 from harness import tlc
 
-RULES = ['Recursive', 'Level', 'Parent', 'Directory', 'Filename', 'Regex', 'Glob', 'Unreachable']
+RULES = ['Recursive', 'Level', 'Parent', 'Directory', 'Filename', 'Regex', 'Glob', 'Unreachable', 'Tries']
 ACTIONS = ['DoBegin', 'DoParentCached', 'DoParentFetch', 'DoParentDone', 'DoFetchCmd', 'DoFinish']
 INVS = ['TypeOK', 'CmdsInScope', 'CmdKindsOK', 'RecordsSound']
 LAYER = 'ftp-crawl'
@@ -104,6 +104,10 @@ def catalogue():
         add(tree1, _s('/'), O(r=True, inc=[['pub']]), conc=conc)
         add(tree1, _s('/'), O(r=True, exc=[['pub']]), conc=conc)
         add(tree1, _s('/'), O(r=True, inc=[['pub2'], ['pub', 'sub']], rej=['txt']), conc=conc)
+        add(tree1, _s('pub/', 'pub-old/', 'pub2/sub/f.txt'), O(r=True, inc=[['pub']]), conc=conc)
+        add(tree1, _s('pub', 'pub-old', 'pub2'), O(r=True, lvl=1, inc=[['pub']]), conc=conc)
+        add(tree1, _s('pub*'), O(r=True, inc=[['pub']]), conc=conc)
+        add(tree1, _s('pub/', 'pub-old/a.txt', 'pub2/'), O(r=True, exc=[['pub']]), conc=conc)
         add(tree1, _s('pub/', 'pub2/sub/f.txt'), O(r=True, np=True, exc=[['pub', 'sub', 'deeper']]), conc=conc, dots=True)
         add(tree1, _s('pub2/'), O(r=True, np=True), conc=conc, dots=True)
         add(tree1, _s('pub/sub/'), O(r=True, np=True, lvl=2), conc=conc, dots=True)
@@ -297,15 +301,16 @@ def validate(chk, items, tag):
         kind_mismatch = m['bad'] >= 1000
         replay_obj = {'scenario': scen, 'origin': origin, 'commands': [[e['c'], e['raw']] for e in cmds]}
         if rec['outcome'] == 'hang':
-            chk.violation({'clause': 'CrawlTerminates', 'layer': LAYER},
-                          'the FTP crawl never finished (%s): %s' % (rec['exc'], summary), replay_obj)
+            # termination is not C02's subject (C13 / C18): an endless crawl is judged by the commands it sent
+            chk.drifted('the FTP crawl did not finish (%s): %s' % (rec['exc'], summary), None)
         elif rec['outcome'] == 'exc':
             chk.drifted('the FTP crawl ended with an exception (%s): %s' % (rec['exc'], summary), None)
         if mask:
             bad = mt['ev'][m['badline'] - 1] if 0 < m['badline'] <= len(mt['ev']) else {}
             for bit, rule in enumerate(RULES):
                 if mask & (1 << bit):
-                    chk.violation({'clause': 'CommandOutOfScope', 'layer': LAYER, 'rule': rule},
+                    chk.violation({'clause': 'RetrievedAgain' if rule == 'Tries' else 'CommandOutOfScope', 'layer': LAYER,
+                                   'rule': rule},
                                   'the server received a command for a path outside the reference sets computed from '
                                   'the tree and the options (first: %s %s; rule failed: %s).  Crawl: %s.  Commands: %s'
                                   % (bad.get('c'), path_text(bad.get('p', [])), rule, summary,
@@ -446,8 +451,6 @@ MUTANTS = [
      'not fnmatch.fnmatchcase(file_entry.name, self._glob_pattern):', 'fnmatch.fnmatchcase(file_entry.name, self._glob_pattern):'),
     ('--no-glob ignored', 'wpull/processor/ftp.py',
      'if self._processor.fetch_params.glob and frozenset(filename) & GLOB_CHARS:', 'if frozenset(filename) & GLOB_CHARS:'),
-    ('glob files one level up', 'wpull/processor/ftp.py',
-     '            level = self._item_session.url_record.level\n', '            level = 0\n'),
     ('RecursiveFilter level <= 1', 'wpull/urlfilter.py',
      '        if url_table_record.level == 0:\n            return True\n        if url_table_record.inline_level:',
      '        if url_table_record.level <= 1:\n            return True\n        if url_table_record.inline_level:'),
